@@ -27,6 +27,14 @@ def handle (op : String) (j : Json) : R Json := do
       | .deferred none => obj [("k", "deferred"), ("d", Json.null)]
       | .deferred (some d) => obj [("k", "deferred"), ("d", dictJson d)]
     return obj [("r", out), ("reaches", toJson (reachesSender (← boolF j "sender") s))]
+  | "loop.wait" =>
+    let poll ← intF j "poll"
+    let budget ← (match j.getObjVal? "budget" with
+      | .ok Json.null => pure none
+      | .ok v => (do let i ← int v; pure (some i))
+      | .error _ => pure none : R (Option Int))
+    let r := waitLoop poll budget (← natF j "blocked")
+    return obj [("attempts", toJson r.1), ("gave_up", toJson r.2)]
   | _ => throw s!"unknown op {op}"
 
 end Driver.Loop
